@@ -11,6 +11,7 @@ other methods of the same impl family (`self.len()`, `self.next()`, `self.as_mut
 inlined from *their* current source text."""
 import json
 import os
+import re
 import sys
 
 HERE = os.path.dirname(os.path.abspath(__file__))
@@ -92,6 +93,8 @@ class Lowerer:
                     return b[1]
                 if b[0] == "slotsiter":
                     return "(.whole %s)" % b[1]
+                if b[0] == "guardfield":
+                    return ".guardPtr"
                 raise Unparsed("name %s (%s) used as a value" % (name, b[0]))
             if name.split("::")[-1] == "USIZE":
                 return ".usize"
@@ -99,6 +102,8 @@ class Lowerer:
                 return ".none"
             raise Unparsed("unknown name %s" % name)
         if k == "field":
+            if e[2] == "ptr" and e[1][0] == "path" and env.get(e[1][1], ("",))[0] == "guardself":
+                return ".guardPtr"
             if e[2] in FLDS:
                 return "(.fld %s %s)" % (self.obj_of(e[1], env), FLDS[e[2]])
             raise Unparsed("field %s" % e[2])
@@ -142,6 +147,8 @@ class Lowerer:
                 return "(.min %s %s)" % (self.X(e[2][0], env), self.X(e[2][1], env))
             if fn == "Some" and len(e[2]) == 1:
                 return "(.some %s)" % self.X(e[2][0], env)
+            if fn == "Box::from_raw" and len(e[2]) == 1:
+                return "(.boxOut %s)" % self.X(e[2][0], env)
             if fn == "Ok" and len(e[2]) == 1:
                 return "(.ok %s)" % self.X(e[2][0], env)
             if fn == "Err" and len(e[2]) == 1 and e[2][0] == ("path", "LengthError"):
@@ -169,6 +176,26 @@ class Lowerer:
                     return self.X(recv, env)      # `slice.iter()` : positions of the slice
             if name == "min" and len(args) == 1:
                 return "(.min %s %s)" % (self.X(recv, env), self.X(args[0], env))
+            # `layout.size()` / `self.layout.size()`
+            if name == "size" and not args and ((recv[0] == "path" and env.get(recv[1], ("",))[0] == "layout") or
+                                                  (recv[0] == "field" and recv[2] == "layout")):
+                return ".layoutSize"
+            if name == "is_null" and not args:
+                return "(.isNull %s)" % self.X(recv, env)
+            if name == "cast" and not args:
+                return self.X(recv, env)          # pointer casts keep the address
+            if name == "as_ptr" and not args and recv[0] == "call" and recv[1][0] == "path" and \
+                    re.search(r"NonNull(::<.*>)?::dangling$", recv[1][1]):
+                # the pointee type decides the address `dangling()` returns (its alignment): from the
+                # turbofish, else from the declared type of the `let` this value initialises
+                mm = re.search(r"NonNull::<(.*)>::dangling$", recv[1][1])
+                ty = mm.group(1) if mm else (env.get("$ptrty") or ("", None))[1]
+                if ty is None:
+                    raise Unparsed("pointee type of NonNull::dangling() not determined")
+                ty = ty.replace(" ", "")
+                ty = re.sub(r"^\*(mut|const)", "", ty)
+                typed = ty.startswith("GenericArray<") or ty in ("T", "MaybeUninit<T>", "mem::MaybeUninit<T>")
+                return "(.dangling %s)" % ("true" if typed else "false")
             if name == "len" and not args and self.kind(recv, env) == "slice":
                 return "(.len %s)" % self.X(recv, env)
             if name == "finish" and not args and recv[0] == "method" and recv[2] == "field" and len(recv[3]) == 1 \
@@ -224,6 +251,7 @@ class Lowerer:
         cont = lambda env2: self.stmts(rest, tail, env2, k)
         kind = s[0]
         if kind == "let":
+            self.cur_let_type = s[3] if len(s) > 3 else None
             return self.let(s[1], s[2], env, cont)
         if kind == "assign":
             op, place, val = s[1], s[2], s[3]
@@ -250,6 +278,8 @@ class Lowerer:
                 return rk(".unit", env)
             return self.value(s[1], env, lambda x, env2, knd: rk(x, env2))
         if kind == "item":
+            if s[1].startswith("use "):
+                return cont(env)      # a `use` declaration inside a block
             raise Unparsed("nested item")
         raise Unparsed("statement %s" % kind)
 
@@ -334,6 +364,41 @@ class Lowerer:
             env = dict(env)
             env[name] = ("objref", ".self", "ArrayConsumer")
             return "(.set .self .position (.num 0)\n  %s)" % cont(env)
+        # `let layout = Layout::new::<…>();`
+        if init[0] == "call" and init[1][0] == "path" and init[1][1].startswith("Layout::new") and not init[2]:
+            env = dict(env)
+            env[name] = ("layout",)
+            return cont(env)
+        # `let ptr = alloc::alloc::alloc(layout);`
+        if init[0] == "call" and init[1][0] == "path" and init[1][1].split("::")[-1] == "alloc" and len(init[2]) == 1 \
+                and init[2][0][0] == "path" and env.get(init[2][0][1], ("",))[0] == "layout":
+            return "(.allocS\n  %s)" % cont(self.fresh(env, name, "ptr"))
+        # `let guard = DeallocOnDrop { ptr: p, layout };`
+        if init[0] == "struct" and init[1] == "DeallocOnDrop":
+            fields = dict(init[2])
+            if set(fields) != {"ptr", "layout"} or env.get(fields["layout"][1] if fields["layout"][0] == "path" else "", ("",))[0] != "layout":
+                raise Unparsed("DeallocOnDrop literal")
+            env2 = dict(env)
+            env2[name] = ("guard",)
+            return "(.guardNew %s\n  %s)" % (self.X(fields["ptr"], env), cont(env2))
+        # `let mut builder = IntrusiveArrayBuilder::new(&mut *ptr);`
+        if init[0] == "call" and init[1][0] == "path" and init[1][1] == "IntrusiveArrayBuilder::new" and len(init[2]) == 1 \
+                and init[2][0][0] == "un" and init[2][0][1] == "&mut" and init[2][0][2][0] == "un" and init[2][0][2][1] == "*":
+            self.check_builder_new()
+            env2 = dict(env)
+            env2[name] = ("objref", ".out", "IntrusiveArrayBuilder")
+            return "(.builderAt %s\n  %s)" % (self.X(init[2][0][2][2], env), cont(env2))
+        # `let p = if c { a } else { b };`
+        if init[0] == "if" and init[3] is not None:
+            env = {**env, "$ptrty": ("ty", getattr(self, "cur_let_type", None))}
+            c = self.X(init[1], env)
+            nv = self.nvars
+            kk = lambda x, env2, knd=None: "(.letv %s\n  %s)" % (x, cont(self.fresh({**env, **{k_: v_ for k_, v_ in env2.items() if k_ not in env}}, name, "ptr")))
+            t = self.block(init[2], env, lambda x, env2: kk(x, env2))
+            self.nvars = nv
+            el = self.block(init[3], env, lambda x, env2: kk(x, env2))
+            self.nvars = nv
+            return "(.ite %s\n  %s\n  %s)" % (c, t, el)
         # `let mut array = GenericArray::uninit();`
         if init[0] == "call" and init[1][0] == "path" and init[1][1].split("::")[-1] == "uninit" and not init[2]:
             env = dict(env)
@@ -589,7 +654,7 @@ class Lowerer:
                     return k(x[5:-1], env2)
                 raise Unparsed("try_from_iter result %s" % x)
             return self.inline_static("try_from_iter", e[1][2], env, kk)
-        if kind == "call" and e[1][0] == "path" and e[1][1].split("::")[-1] in ("forget", "drop_in_place", "write"):
+        if kind == "call" and e[1][0] == "path" and e[1][1].split("::")[-1] in ("forget", "drop_in_place", "write", "dealloc", "handle_alloc_error"):
             return self.effect(e, env, lambda env2: k(".unit", env2))
         return k(self.X(e, env), env)
 
@@ -701,6 +766,12 @@ class Lowerer:
                 if a[0] == "method" and a[1][0] == "path" and a[1][1] in env and env[a[1][1]][0] == "self":
                     return self.inline_call(a[2], a[3], env, lambda x, env2: "(.drop %s\n  %s)" % (x, cont(env2)))
                 raise Unparsed("drop_in_place argument")
+            if base == "handle_alloc_error":
+                return ".abortAlloc"
+            if base == "forget" and len(e[2]) == 1 and e[2][0][0] == "path" and env.get(e[2][0][1], ("",))[0] == "guard":
+                return "(.guardForget\n  %s)" % cont(env)
+            if base == "dealloc" and len(e[2]) == 2:
+                return "(.deallocS %s\n  %s)" % (self.X(e[2][0], env), cont(env))
             if base == "forget" and len(e[2]) == 1 and self.obj_of(e[2][0], env) == ".self":
                 return "(.forget\n  %s)" % cont(env)
             if base == "forget" and len(e[2]) == 1:
@@ -848,7 +919,7 @@ def lower_fn(table, key):
     nargs = 0
     for p in params:
         if p[1] == "self":
-            env["self"] = ("self",)
+            env["self"] = ("guardself",) if "DeallocOnDrop" in key[0] else ("self",)
             recv = p[2]
         elif p[1] == "value":
             env = L.fresh(env, p[0], "nat")
@@ -889,6 +960,8 @@ TARGETS = [
     ("lib.rs", ("GenericSequence<T>forGenericArray<T,N>",), "generate", "generate"),
     ("lib.rs", ("FunctionalSequence<T>forGenericArray<T,N>",), "fold", "gaFold"),
     ("lib.rs", ("FunctionalSequence<T>forGenericArray<T,N>",), "map", "gaMap"),
+    ("impl_alloc.rs", ("GenericSequence<T>forBox<GenericArray<T,N>>",), "generate", "boxedGenerate"),
+    ("impl_alloc.rs", ("DropforDeallocOnDrop",), "drop", "deallocGuardDrop"),
 ]
 
 
@@ -896,7 +969,7 @@ def build_table():
     """(file/impl-header, fn name) -> (header tokens, parsed body) for every fn in the two files"""
     table = {}
     errors = {}
-    for fname in ("iter.rs", "internal.rs", "lib.rs"):
+    for fname in ("iter.rs", "internal.rs", "lib.rs", "impl_alloc.rs"):
         toks = rsparse.tokenize(open(os.path.join(REPO, "src", fname)).read())
         for imp in rsparse.items(toks, "impl"):
             h = imp.header_text()
